@@ -9,7 +9,7 @@ for P in ${@:-benign/*.diff}; do
   git apply "/verif/$P" || { echo "$P does not apply"; FAIL=1; continue; }
   cd /verif
   BAD=""
-  for ID in $(seq -f "C%02g" 1 20); do
+  for ID in ${CHECKS:-$(seq -f "C%02g" 1 20)}; do
     OUT=$(./check $ID --tier quick 2>&1); RC=$?
     [ $RC -ne 0 ] && BAD="$BAD $ID(rc=$RC: $(echo "$OUT" | grep -E '^# ' | head -2 | tr '\n' ' '))"
   done
